@@ -1037,7 +1037,8 @@ def check_functions(case, out):
                              dict(ctx, match=text, group=n, analyze_string=found[n], replace=cap))
                     break
             elif cap != '':
-                out.fail('C12/functions/analyze-string-group-missing',
+                # under the x flag the listed x-flag mechanisms change which groups the engine's pattern has
+                out.fail('C12/' + (x_reason(p, flags) or 'functions/analyze-string-group-missing'),
                          dict(ctx, match=text, group=n, replace=cap, xml=ET.tostring(elem, encoding='unicode')[:200]))
                 break
 
